@@ -2570,7 +2570,41 @@ def run_specs(ctx, specs, name="Cases_C10"):
     return codes
 
 
+def big_patch_hist(ctx):
+    """Patches of millions of rows (on both sides of 2^20 .. 2^22; thorough: 2^23): the redshift histogram of a catalog with
+    redshifts exactly on the edges must follow the closed-side rule whatever the size of a patch is - the rule is evaluated here by
+    plain comparisons on the input column."""
+    import yaw
+    from yaw.redshifts import HistData
+    rng = ctx.rng
+    sizes = [2 ** 20 + 17, 2 ** 22 + 1000] if ctx.quick() else [2 ** 20 + 17, 2 ** 21 + 5, 2 ** 22 + 1000, 2 ** 23 + 3]
+    edges = [0.1, 0.3, 0.5, 0.7, 0.9]
+    values = np.array([0.1, 0.2, 0.3, 0.30000000000000004, 0.5, 0.6, 0.7, 0.8, 0.9, 0.95, 0.05])
+    for n in sizes:
+        for closed in ("right", "left"):
+            g = np.random.default_rng(rng.randrange(2 ** 32))
+            z = values[g.integers(0, len(values), n)]
+            cols = {"ra": g.uniform(10.0, 12.0, n), "dec": g.uniform(-1.0, 1.0, n), "z": z, "pid": (np.arange(n) >= n - 5).astype("i8")}
+            cache = impl.fresh_dir(ctx, "bigz_%d_%s" % (n, closed))
+            cat = impl.Catalog.from_dataframe(cache, impl.make_df(cols), ra_name="ra", dec_name="dec", redshift_name="z", patch_name="pid",
+                                              max_workers=1)
+            cfg = yaw.Configuration.create(rmin=1.0, rmax=2.0, unit="arcmin", edges=edges, closed=closed, max_workers=1)
+            for workers in (1, 2):
+                got = np.asarray(HistData.from_catalog(cat, cfg, max_workers=workers).data, dtype=float)
+                lo, hi = np.asarray(edges[:-1]), np.asarray(edges[1:])
+                want = np.array([np.count_nonzero((z > a) & (z <= b)) if closed == "right" else np.count_nonzero((z >= a) & (z < b))
+                                 for a, b in zip(lo, hi)], dtype=float)
+                ctx.count(key=("big-hist", n, closed, workers), nontrivial=True, kind="big-patch-hist/2^%d-rows/%s" % (int(np.log2(n)), closed))
+                if not np.array_equal(got, want):
+                    ctx.fail("c10-hist-membership:patch-of-millions-of-rows", "HistData.from_catalog over a patch of %d rows (closed=%s, %d workers) counts %s, "
+                             "the closed-side rule on the input column gives %s" % (n, closed, workers, got.tolist(), want.tolist()),
+                             dict(rows=n, closed=closed, workers=workers, got=got.tolist(), want=want.tolist(), edges=edges), case=("big-hist", n, closed, workers))
+            del cat
+            shutil.rmtree(cache, ignore_errors=True)
+
+
 def run(ctx):
+    big_patch_hist(ctx)
     specs = probe_specs()
     if ctx.quick():
         specs += exhaustive_specs({1: 2, 2: 1})
